@@ -11,7 +11,10 @@ RULE = (
 ASSUMPTIONS = ["hashlib (OpenSSL) is the reference for the primitives; RIPEMD-160 cross-checked against a pure-Python implementation; HMAC written out from RFC 2104"]
 NSHARDS = {"quick": 16, "thorough": 32}
 BUDGET_S = {"quick": 200, "thorough": 1500}
-MIN_HITS = {"quick": {"hash": 1800, "hmac": 1000, "pbkdf2": 60, "chunks": 1500, "mnemonic": 3, "reuse": 60}, "thorough": {"hash": 4200, "hmac": 10000, "pbkdf2": 400, "chunks": 10000, "mnemonic": 10}}
+MIN_HITS = {
+    'quick': {"hash": 1800, "hmac": 1000, "pbkdf2": 60, "chunks": 1500, "mnemonic": 3, "reuse": 60},
+    'thorough': {"hash": 7203, "hmac": 5281, "pbkdf2": 237, "chunks": 79080, "mnemonic": 7},
+}
 FN = ["sha1", "sha256", "sha256d", "sha512", "ripemd160", "hash160"]
 
 
@@ -25,7 +28,7 @@ def cases(ctx):
     S, N = ctx.shard, ctx.nshards
     t = ctx.tier == "thorough"
     k = 0
-    maxlen = 2000 if t else 300
+    maxlen = 6000 if t else 300
     for L in range(maxlen + 1):
         k += 1
         if k % N != S:
@@ -36,7 +39,7 @@ def cases(ctx):
     if S == 0:
         ctx.exhaustive.append("every message length 0..%d for each of the six hashes" % maxlen)
     klens = [0, 1, 63, 64, 65, 127, 128, 129, 300]
-    mlens = [0, 1, 55, 56, 63, 64, 65, 111, 112, 127, 128, 129, 300] + [r.randrange(0, 600) for _ in range(150 if t else 12)]
+    mlens = [0, 1, 55, 56, 63, 64, 65, 111, 112, 127, 128, 129, 300] + [r.randrange(0, 600) for _ in range(600 if t else 12)]
     for kl in klens:
         for ml in mlens:
             k += 1
@@ -88,7 +91,7 @@ def cases(ctx):
         for kind in kinds[:3]:
             for rev in (False, True):
                 yield {"k": "chunks", "kind": kind, "chunks": [m[:cut].hex(), m[cut:].hex()], "reverse": rev, "reuse": True}
-    for _ in range(3000 if t else 20):
+    for _ in range(12000 if t else 20):
         m = gen.rbytes(r, r.choice([64, 65, 127, 128, 129, 200, 1000]))
         cuts = sorted(r.randrange(len(m) + 1) for _ in range(r.choice([2, 3, 5, 9])))
         parts = [m[a:b].hex() for a, b in zip([0] + cuts, cuts + [len(m)])]
